@@ -838,6 +838,23 @@ func (c *EvalCtx) call(x *Expr) (*Val, error) {
 			}
 		}
 		return &Val{T: or(alts...), S: sBool}, nil
+	case "mapHas", "mapVal":
+		a, err := argv(0)
+		if err != nil {
+			return nil, err
+		}
+		if a.Typ == nil {
+			return nil, fmt.Errorf("%s of untyped value", x.S)
+		}
+		mt, ok := a.Typ.Underlying().(*types.Map)
+		if !ok {
+			return nil, fmt.Errorf("%s of non-map %s", x.S, a.Typ)
+		}
+		ks, vs := c.e.reg.sortOf(mt.Key()), c.e.reg.sortOf(mt.Elem())
+		if x.S == "mapHas" {
+			return &Val{T: sel(c.e.heapGet(c.st, c.heap(), c.e.keyMapP(ks, vs)), a.T), S: arr(ks, sBool)}, nil
+		}
+		return &Val{T: sel(c.e.heapGet(c.st, c.heap(), c.e.keyMapV(ks, vs)), a.T), S: arr(ks, vs), Typ: types.NewArray(mt.Elem(), 0)}, nil
 	case "typeid":
 		// typeid(x): dynamic type tag of an interface value
 		a, err := argv(0)
